@@ -5,6 +5,7 @@
 import datetime
 import itertools
 import json
+import os
 import warnings
 from abc import ABCMeta
 from enum import IntEnum
@@ -32,6 +33,13 @@ from .base_team import BaseTeam
 from .base_worker import BaseWorker, BaseWorkerState
 from .base_workflow import BaseWorkflow
 from .base_workplace import BaseWorkplace
+
+
+# Verification hook (inactive unless the environment variable PDESY_VERIF=1 is set
+# before import): a step observer called as observer(project, phase, working) at the
+# phases "updated", "allocated", "performed" and "recorded" of every simulated step.
+_VERIF = os.environ.get("PDESY_VERIF") == "1"
+_verif_observer = None
 
 
 class SimulationMode(IntEnum):
@@ -296,6 +304,8 @@ class BaseProject(object, metaclass=ABCMeta):
         while True:
             # 0. Update status
             self.__update()
+            if _VERIF and _verif_observer is not None:
+                _verif_observer(self, "updated", None)
 
             # 1. Check finished or not
             state_list = list(map(lambda task: task.state, self.workflow.task_list))
@@ -332,6 +342,8 @@ class BaseProject(object, metaclass=ABCMeta):
             # Update state of task newly allocated workers and facilities (READY -> WORKING)
             self.workflow.check_state(self.time, BaseTaskState.WORKING)
             self.product.check_state()  # product should be checked after checking workflow state
+            if _VERIF and _verif_observer is not None:
+                _verif_observer(self, "allocated", working)
 
             # 3. Pay cost to all workers and facilities in this time
             if working:
@@ -349,8 +361,13 @@ class BaseProject(object, metaclass=ABCMeta):
             elif perform_auto_task_while_absence_time:
                 self.workflow.perform(self.time, only_auto_task=True)
 
+            if _VERIF and _verif_observer is not None:
+                _verif_observer(self, "performed", working)
+
             # 5. Record
             self.__record(working=working)
+            if _VERIF and _verif_observer is not None:
+                _verif_observer(self, "recorded", working)
 
             # 6. Update time
             self.time = self.time + unit_time
